@@ -31,7 +31,7 @@ import itertools
 import re
 
 from ..absint import Interp, Raised, Record, Unsupported
-from ..astx import call_name, dotted, enclosing_stmt, expand, kwarg, last, reaching_def
+from ..astx import _mutated_in_place, call_name, dotted, enclosing_stmt, expand, kwarg, last, reaching_def
 from ..cfg import CFG
 from ..index import AnchorError, FuncNode, enclosing_class, enclosing_function, parent, qualname_of, walk_shallow
 from ..selftest import Twin, multi
@@ -49,12 +49,13 @@ EXPLANATION = (
     "tracing span ids. get_now of the DBOS adapter must return the result of a @DBOS.step function; _process_tick must pass the adapter's "
     "run_id to the reducer and the retry policy call must receive the seed derived from run_id. "
     "R2: CFG obligations on wait_for_next_task (exception edges excluded). R3: shape of DBOSRuntime.register. "
-    "R4: record / advance / is_replaying / next_expected_key are interpreted (AST only) for journals of length 0..3 and every "
+    "R4: load / record / advance / is_replaying / next_expected_key are interpreted (AST only; the CRUD is a record whose load/insert methods are the observation points, "
+    "so it may be reached through any alias) for journals of length 0..3 and every "
     "protocol run of up to 5 further waits, including the non-deterministic fallback: seq_num of every insert equals the number of rows "
     "before it, is_replaying ⇔ next_expected_key is not None, the i-th replayed key is the i-th row (exhaustive over that finite domain). "
     "R5: interface / forwarding inventory. "
     "R6: for each abstract JournalCrud method whose implementations issue `DELETE … WHERE … <col> <ineq> <placeholder>` with the placeholder bound to a "
-    "method parameter, the WHERE conjunct is normalised (reversed operands, NOT(…), `placeholder ± k`) to `deletes from bound+f upwards`; every call site of "
+    "method parameter (`$n` = n-th argument after the SQL text; the k-th `?` = element k of the parameter tuple, written at the call or held in a straight-line local), the WHERE conjunct is normalised (reversed operands, NOT(…), `placeholder ± k`) to `deletes from bound+f upwards`; every call site of "
     "the method inside llama_agents.dbos is found and the argument is classified from its producing expression: len(<seq>) = first free index (rows 0..n-1 "
     "exist; R4 shows seq_num of an insert equals the row count), get_local_dbos_context().function_id = last used id (DBOS increments before each durable "
     "operation — trusted), `x ± int` shifts, locals are expanded, a parameter is followed to all call sites of its method (they must agree), anything else is exit 2. "
@@ -822,11 +823,13 @@ def rule_r4(chk) -> None:
         def h_load(run_id):
             return [k for _s, k in sorted(rows)]
 
-        hooks = {"self._crud.insert": h_insert, "self._crud.load": h_load}
-        me = Record("TaskJournal", _run_id="r", _crud=Record("JournalCrud"), _entries=None, _replay_index=0)
+        # the CRUD is a record whose *methods* are the observation points, so the journal may reach it through any alias
+        # (`crud = self._crud; crud.load(...)`), not only through the dotted name `self._crud.<m>`
+        crud = Record("JournalCrud", insert=h_insert, load=h_load)
+        me = Record("TaskJournal", _run_id="r", _crud=crud, _entries=None, _replay_index=0)
 
         def call(name, **kw):
-            return _AInterp({}, hooks).with_class("TaskJournal", tj).call_function(meths[name], {"self": me, **kw})
+            return _AInterp({}, {}).with_class("TaskJournal", tj).call_function(meths[name], {"self": me, **kw})
 
         if call("is_replaying"):
             return "is_replaying() is true before load()"
@@ -950,6 +953,25 @@ _FLIP = {">": "<", "<": ">", ">=": "<=", "<=": ">=", "=": "="}
 _NEG = {">": "<=", "<": ">=", ">=": "<", "<=": ">"}
 
 
+def _placeholder_arg(sq, ph: str, qn: int) -> ast.AST | str | None:
+    """Expression bound to placeholder `ph` of the statement.  `$n` (asyncpg) takes the n-th variadic argument after the
+    SQL text; the qn-th `?` (DB-API qmark style) takes element qn of the *parameter sequence*, the single argument after
+    the SQL text — a tuple/list display at the call or a local bound to one by a straight-line assignment."""
+    if ph == "?":
+        rest = sq.call.args[1:]
+        if len(rest) != 1 or sq.call.keywords:
+            return None
+        seq = rest[0]
+        if isinstance(seq, ast.Name):
+            name, seq = seq.id, reaching_def(seq.id, sq.call)
+            if isinstance(seq, ast.List) and _mutated_in_place(name, sq.call):
+                return None  # a list that is filled / reordered in place after its display: positions are not known
+        if not isinstance(seq, (ast.Tuple, ast.List)) or any(isinstance(x, ast.Starred) for x in seq.elts):
+            return None
+        return seq.elts[qn] if 0 <= qn < len(seq.elts) else None
+    return sq._bind(ph, qn)
+
+
 def _range_conjuncts(sq) -> list[tuple[str, str, int, ast.AST | None]]:
     """Inequality conjuncts of a DELETE's WHERE clause as (column, 'above' | 'below', first deleted offset, bound expr):
     `col > p` deletes from p+1 upwards -> ('above', 1); `col >= p` -> ('above', 0); `col >= p + 1` -> ('above', 1);
@@ -982,7 +1004,7 @@ def _range_conjuncts(sq) -> list[tuple[str, str, int, ast.AST | None]]:
             continue
         if m.group("not"):
             op = _NEG[op]
-        bound = sq._bind(ph, qn)
+        bound = _placeholder_arg(sq, ph, qn)
         if op in (">", ">="):
             out.append((col.split(".")[-1].lower(), "above", k + (1 if op == ">" else 0), bound if isinstance(bound, ast.AST) else None))
         else:
@@ -1095,7 +1117,7 @@ def rule_r6(chk) -> None:
                 if sq.verb != "DELETE":
                     continue
                 for col, direction, first, bound in _range_conjuncts(sq):
-                    b = expand(bound, sq.call) if bound is not None else None
+                    b = expand(bound, bound) if bound is not None else None  # at the place the argument is written (the call, or the hoisted parameter tuple)
                     if not (isinstance(b, ast.Name) and b.id in fn_params(fn)):
                         raise AnchorError(f"C27.R6: the range bound of the DELETE in {cls.name}.{meth} is `{ast.unparse(b) if b is not None else '?'}`, not a parameter of the method")
                     shapes.setdefault(meth, {}).setdefault(cls.name, []).append((col, direction, first, b.id, sq, mm, fn))
@@ -1191,6 +1213,14 @@ _SL_TR = 'f"DELETE FROM {self._table_ref} WHERE run_id = ? AND seq_num >= ?",'
 _TJ_OPS = "        await self._crud.purge_operations_from(self._run_id, current_fid)\n"
 _TJ_TR = "        await self._crud.truncate_from(self._run_id, len(self._entries))\n"
 
+_SL_TR_CALL = ("        with self._connect() as conn:\n            conn.execute(\n                f\"DELETE FROM {self._table_ref} WHERE run_id = ? AND seq_num >= ?\",\n"
+               "                (run_id, seq_num),\n            )\n")
+_SL_TR_HOISTED = ("        query = f\"DELETE FROM {self._table_ref} WHERE run_id = ? AND seq_num >= ?\"\n        params = (run_id, seq_num)\n"
+                  "        with self._connect() as conn:\n            conn.execute(query, params)\n")
+_TJ_LOAD = "        if self._crud is None:\n            self._entries = []\n            return\n\n        self._entries = await self._crud.load(self._run_id)\n"
+_TJ_LOAD_ALIAS = "        crud = self._crud\n        if crud is not None:\n            self._entries = await crud.load(self._run_id)\n        else:\n            self._entries = []\n"
+_TJ_INSERT = "        if self._crud is not None:\n            await self._crud.insert(self._run_id, seq_num, key)\n"
+
 TWINS = [
     # ---- R6 (range deletes start exactly one past the last consumed row; producer kind ↔ comparison; sibling agreement)
     Twin("R6 orphan purge made inclusive in both back ends (seed form)", _CRUD,
@@ -1209,6 +1239,8 @@ TWINS = [
          "        first_free = len(self._entries)\n        await self._crud.truncate_from(run_id=self._run_id, seq_num=first_free)\n", None),
     Twin("R6 benign: context counter read through a renamed local", _RT, "        current_fid = ctx.function_id\n\n        await journal.purge_stale(current_fid)\n",
          "        last_fid: int = ctx.function_id\n        current_fid = last_fid\n\n        await journal.purge_stale(current_fid)\n", None),
+    Twin("R6 benign: SQL text and qmark parameter tuple hoisted into locals (sqlite truncate)", _CRUD, _SL_TR_CALL, _SL_TR_HOISTED, None),
+    Twin("R6 hoisted SQL text and parameter tuple, comparison made strict", _CRUD, _SL_TR_CALL, _SL_TR_HOISTED.replace("seq_num >= ?", "seq_num > ?"), "C27.R6"),
     Twin("R2 replay wait without shield", _RT, "                    await asyncio.wait_for(asyncio.shield(target_task), timeout=timeout)", "                    await asyncio.wait_for(target_task, timeout=timeout)", "C27.R2"),
     Twin("R2 benign: shield bound to a local first", _RT, "                    await asyncio.wait_for(asyncio.shield(target_task), timeout=timeout)", "                    guarded = asyncio.shield(target_task)\n                    await asyncio.wait_for(guarded, timeout=timeout)", None),
 
@@ -1270,6 +1302,12 @@ TWINS = [
     Twin("R4 seq_num from the replay index", _TJ, "        seq_num = len(self._entries)\n", "        seq_num = self._replay_index\n", "C27.R4"),
     Twin("R4 benign: reversed comparison", _TJ, "        return self._replay_index < len(self._entries)\n", "        return len(self._entries) > self._replay_index\n", None),
     Twin("R4 benign: seq from index of the appended entry", _TJ, "        seq_num = len(self._entries)\n        self._entries.append(key)\n", "        self._entries.append(key)\n        seq_num = len(self._entries) - 1\n", None),
+    Twin("R4 benign: load through a local alias of the CRUD, if/else instead of early return", _TJ, _TJ_LOAD, _TJ_LOAD_ALIAS, None),
+    Twin("R4 benign: persist guard inverted into an early return, insert through an alias", _TJ, _TJ_INSERT,
+         "        store = self._crud\n        if store is None:\n            return\n        await store.insert(self._run_id, seq_num, key)\n", None),
+    Twin("R4 insert through an alias with the sequence number of the next row", _TJ, _TJ_INSERT,
+         "        crud = self._crud\n        if crud is None:\n            return\n        await crud.insert(self._run_id, seq_num + 1, key)\n", "C27.R4"),
+    Twin("R4 load through an alias drops the first persisted row", _TJ, _TJ_LOAD, _TJ_LOAD_ALIAS.replace("await crud.load(self._run_id)", "(await crud.load(self._run_id))[1:]"), "C27.R4"),
     # ---- R5
     Twin("R5 idle-release adapter answers wait_receive itself", _DBI, "        result = await super().wait_receive(timeout_seconds)\n", "        result = WaitResultTimeout() if timeout_seconds == 0 else await super().wait_receive(timeout_seconds)\n", "C27.R5"),
     Twin("R5 decorator swallows the durable clock", _DBI, "    @override\n    async def write_to_event_stream(self, event: Event) -> None:\n        await super().write_to_event_stream(event)\n        if isinstance(event, WorkflowIdleEvent):\n            self._runtime._schedule_deferred_release(self.run_id)\n",
